@@ -139,9 +139,16 @@ def run_check(pid, tier='quick', replay=None, repo=None, quiet=False, write_evid
         ctx = Ctx(repo or Repo(), tier)
         results, errors = run_rules(pid, ctx)
         extra = {}
-        if tier == 'thorough' and not errors and hasattr(mod, 'thorough'):
-            extra = mod.thorough(ctx, results) or {}
-            errors.extend(extra.pop('errors', []))
+        if tier == 'thorough' and not errors and repo is None:
+            from .arming import arm
+            a = arm(pid)
+            extra = {'arming': {k: a[k] for k in ('variants', 'armed', 'skipped', 'not_detected_optional')},
+                     'arming_samples': a['samples'],
+                     'arming_rule': 'every curated and systematically generated instance-negating edit is applied to the current '
+                                    'tree in memory and the rule must report a finding the unchanged tree does not have '
+                                    '(behaviour-preserving variants must stay silent)'}
+            for fmsg in a['failed']:
+                errors.append(f'arming: rule is (partly) vacuous or brittle: {fmsg}')
     except AnalysisError as exc:
         say(f'ANALYSIS-ERROR property={pid}: {exc}')
         return 2, out
@@ -256,6 +263,10 @@ def run_check(pid, tier='quick', replay=None, repo=None, quiet=False, write_evid
         os.makedirs(EVIDENCE_DIR, exist_ok=True)
         with open(os.path.join(EVIDENCE_DIR, f'{pid}.json'), 'w') as fh:
             json.dump(ev, fh, indent=1, default=str)
+    if extra.get('arming'):
+        a = extra['arming']
+        say(f'arming: {a["armed"]}/{a["variants"]} variants behaved as expected, {a["skipped"]} skipped (pattern not in this tree)'
+            + (f', optional not detected: {a["not_detected_optional"]}' if a.get('not_detected_optional') else ''))
     say(f'wall {wall:.2f}s')
     return code, out
 
